@@ -66,6 +66,8 @@ FIRST_MISSED = {
     "C08-6": "no check reported it -> PAIR: every successful return of ReadHeader/ReadBody/WriteMessage has passed its Decrypt/Encrypt calls; C02 imports C08",
     "C13-6": "no check reported it -> KA-2: the pong timer is Reset only inside the arming sequence of a ping leg",
     "C16-6": "no check reported it -> RFULL (source): the exact-length reads consume the transport itself, never a reader created on the way",
+    "C14-5": "no check reported it -> WIN-1: an accepted (acknowledged) data packet is always delivered; C14 imports C01",
+    "C18-5": "own property silent (reported by C12 EXIT and TICK-2) -> C18 shares the TICK rules",
     "C06-3": "no check reported it -> RATELIMIT: once lastResend is refreshed the packets are transmitted",
 }
 
